@@ -32,6 +32,7 @@ func (w *World) Client() kubernetes.Interface {
 			e.Err = "notfound"
 			return true, nil, apierrors.NewNotFound(nodeGR, name)
 		}
+		e.Before = n.DeepCopy()
 		return true, n.DeepCopy(), nil
 	})
 	cs.AddReactor("update", "nodes", func(a k8stesting.Action) (bool, runtime.Object, error) {
